@@ -41,7 +41,7 @@ Definition word_chars : list Z := map Z.of_nat (seq 97 26 ++ seq 65 26 ++ seq 48
 Lemma inline_rules_quiet : forall hw refs C, inline_cfg hw refs = Some C ->
   forall rk, In rk (c_rules C) -> quiet C word_chars [10] (c_spec C rk) = true.
 Proof.
-  intros hw refs C H. unfold inline_cfg in H. destruct hw; cbv beta in H;
+  intros hw refs C H. unfold inline_cfg, inline_cfg_x in H. destruct hw; cbv beta in H;
     match type of H with context [opt_all ?l] => let v := eval vm_compute in (opt_all l) in change (opt_all l) with v in H end;
     inversion H; subst C; clear H; cbn [c_rules c_spec c_uni];
     intros rk Hin; cbn in Hin; repeat (destruct Hin as [<-|Hin]; [vm_compute; reflexivity|]); contradiction.
